@@ -286,6 +286,8 @@ pub enum Op {
     Halt { h: usize },
     Await { h: usize },
     Join { h: usize },
+    /// create a join future and drop it without ever polling it (must have no effect)
+    JoinDiscard { h: usize },
     Consume { h: usize },
     TryHalt { h: usize },
     Stop { h: usize },
@@ -625,6 +627,14 @@ async fn exec_op(c: usize, op: Op) {
                     None => "none".into(),
                 });
             }
+        }
+        Op::JoinDiscard { h } => {
+            let Some(mut hb) = take(h) else { return };
+            if let HandleBox::Owning(_, ow) = &mut hb {
+                let f = ow.join();
+                drop(f);
+            }
+            put(h, hb);
         }
         Op::Consume { h } => {
             let Some(hb) = take(h) else { return };
